@@ -122,6 +122,18 @@ def rule_a(ctx):
     top = [st for st in f.node.body if isinstance(st, ast.If)]
     recognised = len(top) == 1 and norm(top[0].test) == f"isinstance({p}, np.ndarray)" and top[0].orelse and isinstance(top[0].orelse[0], ast.If) \
         and norm(top[0].orelse[0].test) == f"isinstance({p}, darsia.Image)"
+    # named contradiction: the corrected data are stored into the buffer of the input (`input[...] = result`, np.copyto(input, result)): the
+    # result is converted to the input's dtype on the store -- a float result written into an integer array is truncated
+    for st in ast.walk(f.node):
+        tgt = None
+        if isinstance(st, ast.Assign) and isinstance(st.targets[0], ast.Subscript) and norm(st.targets[0].value) in (p, f"{p}.img") and norm(st.targets[0].slice) in ("...", ":", "slice(None, None, None)"):
+            tgt = st.targets[0]
+        elif isinstance(st, ast.Expr) and isinstance(st.value, ast.Call) and norm(st.value.func) == "np.copyto" and st.value.args and norm(st.value.args[0]) in (p, f"{p}.img"):
+            tgt = st.value.args[0]
+        if tgt is not None:
+            ctx.ob(R, f.qname, "corrected data are returned / re-bound, not stored into the input's buffer", False,
+                   f"`{norm(st)[:80]}` writes the result into the caller's array: it is cast to that array's dtype (integer images lose the float result of colour / illumination "
+                   "corrections), so the overwrite result differs from the non-overwrite one", st, evidence=True)
     sem = fold_workflow(f)
     if sem is not None and sem["undecided"] and not (sem["a"] or sem["c"]):
         sem = None  # data / metadata terms this rule cannot compare with the documented ones: left to the syntactic rules
